@@ -14,7 +14,8 @@ from checks import C34 as Q
 
 PROOF_MODULES = []     # coq/Assume/*.v are compiled directly by coqc (not yet in _CoqProject)
 OBLIGATIONS = ["C35/P_abs_rule_sound.v", "C35/P_sign_rule_sound.v", "C35/P_floor_ceiling_rule_sound.v",
-               "C35/P_conjugate_rule_sound.v", "C35/P_pow_rule_refuted.v", "C35/P_nonvacuous.v"]
+               "C35/P_conjugate_rule_sound.v", "C35/P_pow_rule_refuted.v", "C35/P_pow_rule_even_guarded.v", "C35/P_max_rule_sound.v", "C35/P_min_rule_sound.v",
+               "C35/P_nonvacuous.v"]
 
 SYMS = Q.SYMS
 F1R = ["abs", "sign", "floor", "ceiling", "conjugate", "log"]
@@ -141,6 +142,10 @@ def rule_class(nodes, labels):
                 and n["inputs"].startswith("(Pow ") and not n["cands"].get("keep", "").startswith("(Pow (Pow ")]
     if collapse:
         fired.append("Pow-collapse")
+    # a rule with a known defect explains the difference whatever else fired in the same expression
+    for known in ("Pow-abs", "Pow-collapse"):
+        if known in fired:
+            return known
     return "+".join(fired + mm) if (fired or mm) else "none"
 
 
